@@ -135,6 +135,76 @@ M("c17-epoch", "C17", "src/ckl/date.py", "DAYS_EPOCH = 25569",
   "DAYS_EPOCH = 25570", "epoch constant off by one")
 
 
+# ---- C13
+M("c13-acos-no-null-guard", "C13", "src/ckl/functions.py",
+  '''        if args.isNull("x"):
+            return NULL
+        return ValueDecimal(
+            safe_math(math.acos, pos, args.getNumerical("x").value)
+        )''', '''        return ValueDecimal(
+            safe_math(math.acos, pos, args.get("x").value)
+        )''', "acos without NULL guard and type check")
+M("c13-deref-no-bounds", "C13", "src/ckl/nodes.py",
+  '''            if i < 0:
+                i = i + len(lst)
+            if i < 0 or i >= len(lst):
+                raise CklRuntimeError(
+                    ValueString("ERROR"), f"Index out of bounds {i}", self.pos
+                )
+            return lst[i]''', '''            if i < 0:
+                i = i + len(lst)
+            if i < 0:
+                raise CklRuntimeError(
+                    ValueString("ERROR"), f"Index out of bounds {i}", self.pos
+                )
+            return lst[i]''', "list index upper bound not checked")
+M("c13-substr-get", "C13", "src/ckl/functions.py",
+  '''        value = args.getString("str").value
+        start = args.getInt("startidx").value''',
+  '''        value = args.get("str").value
+        start = args.getInt("startidx").value''',
+  "substr without string check")
+
+# ---- C16
+M("c16-sorted-inplace", "C16", "src/ckl/functions.py",
+  "        result = lst.value[:]\n        for i in range(len(result)):",
+  "        result = lst.value\n        for i in range(len(result)):",
+  "sorted sorts its argument in place")
+M("c16-add-extends-a", "C16", "src/ckl/functions.py",
+  '''                return (
+                    ValueList()
+                    .addItems(a.asList().value)
+                    .addItems(b.asList().value)
+                )''', '''                a.value.extend(b.asList().value)
+                return a''', "list + list extends the left operand")
+M("c16-sublist-alias", "C16", "src/ckl/functions.py",
+  '''        result = ValueList()
+        for i in range(start, end):
+            result.addItem(value[i])
+        return result
+
+
+class FuncSubstr(''', '''        if start == 0 and end == len(value):
+            return args.getList("lst")
+        result = ValueList()
+        for i in range(start, end):
+            result.addItem(value[i])
+        return result
+
+
+class FuncSubstr(''', "sublist returns its argument for the full range")
+M("c16-slice-alias", "C16", "src/ckl/nodes.py",
+  '''            result = ValueList()
+            for i in range(start, end):
+                result.addItem(lst[i])
+            return result''', '''            if start == 0 and end == len(lst):
+                return value
+            result = ValueList()
+            for i in range(start, end):
+                result.addItem(lst[i])
+            return result''', "l[0 to *] returns the list itself")
+
+
 def run(cmd, cwd, env=None, timeout=3600):
     t0 = time.time()
     try:
